@@ -73,9 +73,15 @@ deriving DecidableEq, Repr
 
 /-! ### single request: `handleHTTPProduce` -/
 
+/-- scripted S3 fault of a single-request upload.  `part k` = the UploadPart call for part `k` fails (the harness
+scripts it persistent or transient (`.once`), before or after S3 read the request body — the code as it is makes no
+second attempt, so all four behave alike; see `uploadStreamRetry` for the variant where they do not). -/
 inductive S3Fault where
-  | none | put | create | part1 | complete | delete
+  | none | put | create | part (k : Nat) | complete | delete
 deriving DecidableEq, Repr
+
+/-- number of S3 parts `UploadStream` cuts an `n`-byte body into (chunk size = `minPart`) -/
+def nParts (n : Nat) : Nat := (n + minPart - 1) / minPart
 
 structure ProduceOut where
   status : Nat
@@ -84,20 +90,28 @@ structure ProduceOut where
   produced : Bool             -- a produce request with the envelope record reached a broker
 deriving DecidableEq, Repr
 
-/-- `UploadStream`: `inl status` on error, `inr ()` when the object holds exactly `body`. -/
+/-- the part whose UploadPart call is scripted to fail, if the stream has such a part -/
+def faultPart (n : Nat) : S3Fault → Option Nat
+  | .part k => if 1 ≤ k && k ≤ nParts n then some k else none
+  | _ => none
+
+/-- `UploadStream`: `inl status` on error, `inr ()` when the object holds exactly `body`.
+Multipart path: for part i = 1, 2, … the running total (`min n (i·minPart)`) is checked against `maxBlob`
+BEFORE part i is sent; any UploadPart error aborts the upload (502), there is no second attempt. -/
 def uploadStream (maxBlob : Int) (body : List Chunk) (f : S3Fault) : Except Nat Unit :=
   let n := dlen body
   if n == 0 then .error 400                                   -- "empty upload"
   else if n < minPart then
     (if f == .put then .error 502 else .ok ())                -- PutObject path (no maxBlob check there)
   else if f == .create then .error 502
-  else
-    let first := minPart                                       -- first chunk is full
-    if maxBlob > 0 && (first : Int) > maxBlob then .error 400
-    else if f == .part1 then .error 502
-    else if maxBlob > 0 && (n : Int) > maxBlob then .error 400
-    else if f == .complete then .error 502
-    else .ok ()
+  else match faultPart n f with
+    | some k =>
+      if maxBlob > 0 && ((min n (k * minPart) : Nat) : Int) > maxBlob then .error 400   -- size check of a part ≤ k fires first
+      else .error 502
+    | none =>
+      if maxBlob > 0 && (n : Int) > maxBlob then .error 400
+      else if f == .complete then .error 502
+      else .ok ()
 
 def produceWith (ps : Broker → Nat) (maxBlob : Int) (alg : Alg) (ck : Ck) (body : List Chunk) (f : S3Fault)
     (b : Broker) : ProduceOut :=
@@ -115,6 +129,29 @@ def produceWith (ps : Broker → Nat) (maxBlob : Int) (alg : Alg) (ck : Ck) (bod
 
 def produce := produceWith produceStatus
 def produceOld := produceWith produceStatusOld
+
+/-! #### variant: "retry a transient UploadPart failure once" with the SAME request (class of seeded change C32-r2-2)
+
+The request body of the failed attempt is a `bytes.Reader` the S3 client already consumed when the failure came
+after the read: the second attempt sends what is left of it — nothing.  S3 stores an empty part, the hashers and the
+byte total have seen the whole chunk.  Bodies here are part-aligned (chunk i of the list = part i). -/
+
+/-- transient fault of a streamed upload: part `k` fails once, before or after S3 read the request body -/
+structure Transient where
+  k : Nat
+  afterRead : Bool
+deriving DecidableEq, Repr
+
+/-- what S3 holds after a streamed upload whose UploadPart calls are retried once with the same input -/
+def storedWithRetry (body : List Chunk) (t : Option Transient) : List Chunk :=
+  match t with
+  | some ⟨k, true⟩ => body.eraseIdx (k - 1)       -- the retry stored an empty part k
+  | _ => body
+
+/-- `handleHTTPProduce` on top of that variant (sha256, no client checksum, no size limit, acknowledging broker):
+status, envelope, stored object -/
+def produceRetry (body : List Chunk) (t : Option Transient) : Nat × Envelope × List Chunk :=
+  (200, ⟨dlen body, body⟩, storedWithRetry body t)
 
 /-! ### multipart session machine -/
 
@@ -261,6 +298,84 @@ def stepOld (st : St) : Op → St × Out
   | .complete l f b => doCompleteWith false produceStatusOld st l f b
   | .abort => doAbort st
   | .expire => doExpire st
+
+/-! ### concurrent part requests on one session
+
+`handleHTTPUploadPart` as three steps per request — (1) take the session lock, run the checks, (2) S3 `UploadPart`,
+(3) feed the hashers and record the part, release — interleaved by an arbitrary schedule with the other requests of
+the session (which hold the lock for their whole handler: `Ev.op`).
+`hold = true`  : the code — the lock taken in (1) is held until the request is answered;
+`hold = false` : the split-lock variant (class of seeded change C32-r2-1) — (1) works on a snapshot and releases,
+                 (2) runs without the lock, (3) re-takes it only to hash and record.
+The session lookup (`lfsGetUploadSession`) is merged with step (1). -/
+
+/-- the checks of `handleHTTPUploadPart` between taking the lock and the S3 call: `some status` = answered here -/
+def partCheck (s : Sess) (n : Nat) (c : Chunk) : Option Nat :=
+  if (lookupPart s.parts n).isSome then some 200          -- idempotent re-PUT
+  else if n != s.nextPart then some 409
+  else if c.len == 0 then some 400
+  else if c.len > minPart then some 400
+  else if s.total + c.len > s.sizeBytes then some 400
+  else if s.total + c.len < s.sizeBytes && c.len < minPart then some 400
+  else none
+
+/-- an in-flight `PUT …/parts/n`; pc: 0 = not started, 1 = checks passed (S3 call next), 2 = stored by S3
+(record next), 3 = answered / no request -/
+structure Thr where
+  n : Nat
+  c : Chunk
+  fails : Bool
+  pc : Nat
+
+structure CSt where
+  base : St
+  lock : Option Nat           -- session mutex: the request slot holding it across steps
+  thr : Nat → Thr
+
+def CSt.init (maxBlob : Int) : CSt := ⟨St.init maxBlob, none, fun _ => ⟨0, ⟨0, 0⟩, false, 3⟩⟩
+
+inductive Ev where
+  | spawn (i n : Nat) (c : Chunk) (fails : Bool)      -- a new PUT arrives in request slot i
+  | tick (i : Nat)                                    -- request i is scheduled for its next step
+  | op (o : Op)                                       -- a whole handler under the session lock (init/complete/abort/expire/part)
+
+def setThr (cs : CSt) (i : Nat) (t : Thr) : CSt := { cs with thr := fun j => if j = i then t else cs.thr j }
+
+def cstep (hold : Bool) (cs : CSt) : Ev → CSt × Option Out
+  | .spawn i n c f =>
+    if (cs.thr i).pc == 1 || (cs.thr i).pc == 2 then (cs, none) else (setThr cs i ⟨n, c, f, 0⟩, none)
+  | .op o =>
+    if cs.lock.isSome then (cs, none)                                    -- blocked on the session mutex
+    else let r := step cs.base o; ({ cs with base := r.1 }, some r.2)
+  | .tick i =>
+    let t := cs.thr i
+    if t.pc == 0 then
+      if cs.lock.isSome then (cs, none)                                  -- blocked on the session mutex
+      else match cs.base.sess with
+        | none => (setThr cs i { t with pc := 3 }, some ⟨404, none, false⟩)
+        | some s =>
+          match partCheck s t.n t.c with
+          | some x => (setThr cs i { t with pc := 3 }, some ⟨x, none, false⟩)
+          | none => (setThr { cs with lock := if hold then some i else none } i { t with pc := 1 }, none)
+    else if t.pc == 1 then
+      if t.fails || !cs.base.s3open then
+        (setThr { cs with lock := none } i { t with pc := 3 }, some ⟨502, none, false⟩)
+      else
+        (setThr { cs with base := { cs.base with s3parts := setPart cs.base.s3parts t.n t.c } } i { t with pc := 2 }, none)
+    else if t.pc == 2 then
+      match cs.base.sess with
+      | none => (setThr { cs with lock := none } i { t with pc := 3 }, some ⟨200, none, false⟩)
+      | some s =>
+        (setThr { cs with lock := none,
+                          base := { cs.base with sess := some { s with parts := setPart s.parts t.n t.c,
+                                                                        hashed := s.hashed ++ [t.c],
+                                                                        total := s.total + t.c.len } } }
+           i { t with pc := 3 }, some ⟨200, none, false⟩)
+    else (cs, none)
+
+def crun (hold : Bool) (cs : CSt) : List Ev → CSt
+  | [] => cs
+  | e :: rest => crun hold (cstep hold cs e).1 rest
 
 def run (stp : St → Op → St × Out) (st : St) : List Op → St × List Out
   | [] => (st, [])
